@@ -26,9 +26,13 @@ type c20Case struct {
 	// boundary). NoFirst: no tracer was installed before that.
 	// CloseAt > 0: the application closes the connection (the *redis.Conn it finds in the
 	// registry, as Stop does) while the loop waits for input with exactly CloseAt bytes consumed.
-	CloseAt int  `json:"app_close_at,omitempty"`
-	SwapAt  int  `json:"swap_tracer_at,omitempty"`
-	NoFirst bool `json:"no_first_tracer,omitempty"`
+	CloseAt int `json:"app_close_at,omitempty"`
+	// NestedAt > 0: while this connection waits for input with exactly NestedAt bytes consumed, a
+	// second client connects, is served (PING, SET, GET, an unknown command) and leaves: two
+	// connections are registered at once. Each connection's spans are judged on their own.
+	NestedAt int  `json:"second_client_at,omitempty"`
+	SwapAt   int  `json:"swap_tracer_at,omitempty"`
+	NoFirst  bool `json:"no_first_tracer,omitempty"`
 }
 
 func c20Check(cs c20Case) (clause, detail string) {
@@ -55,6 +59,17 @@ func c20Check(cs c20Case) (clause, detail string) {
 	}
 	conn := seq.NewConn(seq.Script{Input: in, End: end, FailWriteFrom: cs.FailWrite})
 	tr2 := srv.NewTracer()
+	nested := [2]int{-1, -1}
+	if cs.NestedAt > 0 {
+		conn.OnRead = func(delivered int, starving bool) {
+			if nested[0] < 0 && delivered == cs.NestedAt {
+				nested[0] = len(tr.Events)
+				in2 := concat(grammar.Encode([]string{"PING"}), grammar.Encode([]string{"SET", "k", "v"}), grammar.Encode([]string{"GET", "k"}), grammar.Encode([]string{"NOSUCH"}), grammar.Encode([]string{"INCR", "n"}))
+				srv.RunConn(s, seq.NewConn(seq.Script{Input: in2}))
+				nested[1] = len(tr.Events)
+			}
+		}
+	}
 	if cs.CloseAt > 0 {
 		closed := false
 		conn.OnRead = func(delivered int, starving bool) {
@@ -76,6 +91,19 @@ func c20Check(cs c20Case) (clause, detail string) {
 		}
 	}
 	out := srv.RunConn(s, conn)
+	if cs.NestedAt > 0 {
+		if out.Panic != "" || out.Spin != "" || nested[0] < 0 {
+			return "", ""
+		}
+		second := tr.Events[nested[0]:nested[1]]
+		first := append(append([]srv.SpanEvent{}, tr.Events[:nested[0]]...), tr.Events[nested[1]:]...)
+		for i, ev := range [][]srv.SpanEvent{first, second} {
+			if cl, dt, _ := srv.CheckSpans(ev); cl != "" {
+				return cl, fmt.Sprintf("connection #%d of two that were open at the same time: %s events=%s", i+1, dt, spanLog(ev))
+			}
+		}
+		return "", ""
+	}
 	if cs.SwapAt > 0 {
 		if out.Panic != "" || out.Spin != "" {
 			return "", ""
@@ -170,6 +198,15 @@ func c20Run(c *fw.Ctx) {
 			run(c20Case{Input: it.Bytes, Labels: []string{it.Label}, Cut: cut}, name+"|"+it.Kind+"|cut")
 			run(c20Case{Input: it.Bytes, Labels: []string{it.Label}, Cut: cut, Reset: true}, name+"|"+it.Kind+"|cut-reset")
 		}
+	}
+	// a second client comes and goes while this connection waits between two requests
+	for _, it := range cat {
+		if !c.Mine() || it.Kind == "quit" {
+			continue
+		}
+		name := it.Label[:strings.IndexByte(it.Label, '|')]
+		in := concat(it.Bytes, it.Bytes, grammar.Encode([]string{"PING"}))
+		run(c20Case{Input: in, Labels: []string{it.Label, it.Label, "PING"}, Cut: -1, NestedAt: len(it.Bytes)}, name+"|"+it.Kind+"|second-client")
 	}
 	// the application (or Stop) closes the connection while it waits for the next request
 	for _, it := range cat {
